@@ -77,6 +77,16 @@ def classify_roots(ctx: Ctx, rec: P.Recorder, case: Any, source: str) -> int:
             continue
         allow = P.op_allows(ev.op)
         ctx.count("raised:%s:%s" % (ev.op, ev.exc))
+        # a refusal that started as IncompatibleArgsError and leaves as a different class: the documented class
+        # of that failure (interface problem / variables that cannot be eliminated) was lost on the way out
+        eo = ev.exc_obj
+        inner = getattr(eo, "__cause__", None) or getattr(eo, "__context__", None)
+        if eo is not None and inner is not None and type(inner).__name__ == "IncompatibleArgsError" \
+                and type(eo).__name__ != "IncompatibleArgsError":
+            ctx.violation("refusal-class-lost:%s:IncompatibleArgsError-became-%s" % (ev.op, ev.exc),
+                          "%s refused with IncompatibleArgsError (%s) but the caller receives %s" % (
+                              ev.op, str(inner)[:160], ev.exc), {"source": source, "case": case})
+        ctx.count("refusal-chain-inspected")
         if not M.is_documented(ev.exc, strings=allow["strings"], dicts=allow["dicts"]):
             ctx.violation("exc:%s@%s" % (ev.exc, ev.exc_where),
                           "%s escaped from %s (workload %s): %s" % (ev.exc, ev.op, source, str(ev.exc_obj)[:200]),
@@ -447,6 +457,16 @@ def run_fault(ctx: Ctx, case: Dict[str, Any]) -> None:
         with open(fn, "w") as f:
             json.dump([e], f)
         judge_fault(ctx, case, "read_contracts_from_file", lambda: P.fileio_mod.read_contracts_from_file(fn), ev)
+        # the same entry in a file with a valid neighbour of the same representation, before and after it: every
+        # entry of a file has to be checked, not only the first or the last one
+        good = {"name": "ok", "type": "PolyhedralIoContract_machine" if machine else "PolyhedralIoContract",
+                "data": _copy.deepcopy(MACH if machine else HUM)}
+        for pos, content in (("first", [e, good]), ("last", [good, e]), ("middle", [good, e, good])):
+            fn2 = os.path.join(d, "f_%s.json" % pos)
+            with open(fn2, "w") as f:
+                json.dump(content, f)
+            judge_fault(ctx, dict(case, file_position=pos), "read_contracts_from_file",
+                        lambda fn2=fn2: P.fileio_mod.read_contracts_from_file(fn2), ev)
     finally:
         shutil.rmtree(d, ignore_errors=True)
     ctx.count("fault_cases")
